@@ -51,7 +51,16 @@ fn main() {
         }
         i += 1;
     }
-    let code = props::dispatch(&prop, tier, replay);
+    let code = match std::panic::catch_unwind(|| props::dispatch(&prop, tier, replay)) {
+        Ok(c) => c,
+        Err(_) => {
+            let c = crash::escaped_panic();
+            if c == 2 {
+                eprintln!("MACHINERY: the harness panicked");
+            }
+            c
+        }
+    };
     std::process::exit(code);
 }
 
